@@ -410,75 +410,15 @@ func c02Traversal(c *Ctx) {
 			if fd.Type.Params == nil || len(fd.Type.Params.List) == 0 {
 				continue
 			}
-			ptv, ok := info.Types[fd.Type.Params.List[0].Type]
-			if !ok {
-				continue
-			}
-			switch typeName(ptv.Type) {
-			case "OrPath":
-				// for _, p := range or.Or { traversed := traverse(p, t, ...); for _, tr := range traversed { acc = append(acc, tr) } }
-				okLoop, why := false, "no loop over the alternatives found"
-				ast.Inspect(fd.Body, func(n ast.Node) bool {
-					rs, ok := n.(*ast.RangeStmt)
-					if !ok {
-						return true
-					}
-					sel, ok := ast.Unparen(rs.X).(*ast.SelectorExpr)
-					if !ok || sel.Sel.Name != "Or" {
-						return true
-					}
-					okLoop = true
-					ast.Inspect(rs.Body, func(q ast.Node) bool {
-						switch x := q.(type) {
-						case *ast.BranchStmt:
-							okLoop, why = false, "the loop over the alternatives contains "+x.Tok.String()
-						case *ast.IfStmt:
-							okLoop, why = false, "an alternative is traversed or appended only under a condition"
-						case *ast.ReturnStmt:
-							okLoop, why = false, "the function returns from inside the loop over the alternatives"
-						}
-						return true
-					})
-					return false
-				})
-				r.Check(okLoop, "C02.P3", key+"#union", p.Pos(fd.Pos()), "every alternative is traversed and all its results are appended", "union is not complete: "+why)
-			case "AndPath":
-				var headTrue, tailSlice, fromEach bool
-				ast.Inspect(fd.Body, func(n ast.Node) bool {
-					switch x := n.(type) {
-					case *ast.CallExpr:
-						if callee, ok := calleeOf(info, x).(*types.Func); ok && callee.Pkg() == gen.Types && len(x.Args) >= 3 {
-							// traverse(first, t, true, ...)
-							if id, ok := ast.Unparen(x.Args[2]).(*ast.Ident); ok && id.Name == "true" {
-								headTrue = true
-							}
-						}
-					case *ast.SliceExpr:
-						if x.Low != nil {
-							if v, ok := constInt(info, x.Low); ok && v == 1 {
-								if sel, ok := ast.Unparen(x.X).(*ast.SelectorExpr); ok && sel.Sel.Name == "And" {
-									tailSlice = true
-								}
-							}
-						}
-					case *ast.RangeStmt:
-						// for _, tr := range firstTraversed { ... traverse(next, fromResult(tr)) ... }
-						calls := false
-						ast.Inspect(x.Body, func(q ast.Node) bool {
-							if call, ok := q.(*ast.CallExpr); ok {
-								if callee, ok := calleeOf(info, call).(*types.Func); ok && callee.Pkg() == gen.Types && strings.HasPrefix(callee.Name(), "traverse") {
-									calls = true
-								}
-							}
-							return true
-						})
-						if calls {
-							fromEach = true
-						}
-					}
-					return true
-				})
-				r.Check(headTrue && tailSlice && fromEach, "C02.P3", key+"#composition", p.Pos(fd.Pos()), "the head is traversed to nodes, and the tail And[1:] is traversed from each head result", fmt.Sprintf("composition is not `head (fetching nodes) then tail from each head result` (head fetches nodes: %v, tail is And[1:]: %v, continues from each result: %v)", headTrue, tailSlice, fromEach))
+			if prm0 := firstParamObj(info, fd); prm0 != nil {
+				switch {
+				case hasSliceFieldOf(prm0.Type(), "Or", pathT):
+					ok, why := c02UnionShape(c, gen, fd, prm0, "Or", pathT)
+					r.Check(ok, "C02.P3", key+"#union", p.Pos(fd.Pos()), "every alternative is traversed and all its results are appended", "union is not complete: "+why)
+				case hasSliceFieldOf(prm0.Type(), "And", pathT):
+					ok, why := c02CompositionShape(c, gen, fd, prm0, "And", pathT)
+					r.Check(ok, "C02.P3", key+"#composition", p.Pos(fd.Pos()), "the head is traversed to nodes, and the tail And[1:] is traversed from each head result", "composition is not `head (fetching nodes) then tail from each head result`: "+why)
+				}
 			}
 			// inverse / forward arms of a property step, decided on what the function emits when <property>.Inverse is true and
 			// when it is false (E-sym, two worlds): however the choice is written (if/else, switch, helper)
@@ -1170,4 +1110,255 @@ func c02RuleNames(c *Ctx) {
 	if counters == 0 {
 		r.Unknown("C02.P8", "counter", "", "no atomically accessed fresh-name counter found")
 	}
+}
+
+func firstParamObj(info *types.Info, fd *ast.FuncDecl) types.Object {
+	if fd.Type.Params == nil || len(fd.Type.Params.List) == 0 || len(fd.Type.Params.List[0].Names) == 0 {
+		return nil
+	}
+	return info.Defs[fd.Type.Params.List[0].Names[0]]
+}
+
+// hasSliceFieldOf: t is a struct (not the interface itself) with a field `name` of type []elem.
+func hasSliceFieldOf(t types.Type, name string, elem types.Type) bool {
+	st, ok := t.Underlying().(*types.Struct)
+	if !ok {
+		return false
+	}
+	for i := 0; i < st.NumFields(); i++ {
+		if st.Field(i).Name() == name {
+			if sl, ok := st.Field(i).Type().Underlying().(*types.Slice); ok && types.Identical(sl.Elem(), elem) {
+				return true
+			}
+		}
+	}
+	return false
+}
+
+// c02TraversalReturns evaluates a traversal arm symbolically.  Helpers of the package are interpreted, except the
+// functions that take a path (the dispatcher and the arms themselves): calls to those stay calls, so that the value
+// returned says which sub-paths are traversed, from which state, and what happens to their results.
+func c02TraversalReturns(c *Ctx, gen *packages.Package, fd *ast.FuncDecl, pathT *types.Named) [][2]interface{} {
+	pathIf, _ := pathT.Underlying().(*types.Interface)
+	takesPath := func(fn *types.Func) bool {
+		sig, ok := fn.Type().(*types.Signature)
+		if !ok || sig.Params().Len() == 0 {
+			return false
+		}
+		t0 := sig.Params().At(0).Type()
+		return types.Identical(t0, pathT) || (pathIf != nil && types.Implements(t0, pathIf))
+	}
+	inl := samePkgInline(gen)
+	var rets [][2]interface{}
+	proto := &symWalker{Inline: func(fn *types.Func) bool { return inl(fn) && !takesPath(fn) }}
+	proto.OnReturn = func(w *symWalker, ret *ast.ReturnStmt, results []*Sym) {
+		if w.depth == 0 && len(results) == 1 {
+			rets = append(rets, [2]interface{}{condsText(w.Conds()), results[0]})
+		}
+	}
+	c.P.SymWalk(gen, fd, proto, nil)
+	return rets
+}
+
+// isElemCopy: s is an element of the collection X, or a field-by-field copy of one.
+func isElemCopy(s, X *Sym) bool {
+	if s == nil {
+		return false
+	}
+	if s.K == symElem && s.X != nil && s.X.String() == X.String() {
+		return true
+	}
+	if s.K == symStruct && len(s.Fields) > 0 {
+		for k, f := range s.Fields {
+			if f.K != symField || f.Name != k || f.X == nil || f.X.K != symElem || f.X.X == nil || f.X.X.String() != X.String() {
+				return false
+			}
+		}
+		return true
+	}
+	return false
+}
+
+// traversalCall: s is a call of a function of the package whose first parameter is a path; returns its arguments.
+func traversalCall(gen *packages.Package, s *Sym) ([]*Sym, bool) {
+	if s == nil || s.K != symCall || !strings.HasPrefix(s.Fn, gen.Types.Path()+".") || len(s.Parts) == 0 {
+		return nil, false
+	}
+	return s.Parts, true
+}
+
+// flattenOf: part is each(C => element of C): all the results of the collection C are appended, in order.
+func flattenOf(part *Sym) (*Sym, bool) {
+	if part == nil || part.K != symRepeat || part.X == nil || len(part.Parts) != 1 || !isElemCopy(part.Parts[0], part.X) {
+		return nil, false
+	}
+	return part.X, true
+}
+
+func mentionsElemOf(s, X *Sym) bool {
+	found := false
+	s.Walk(func(q *Sym) {
+		if q.K == symElem && q.X != nil && q.X.String() == X.String() {
+			found = true
+		}
+	})
+	return found
+}
+
+// c02UnionShape: the arm for a union returns [for every alternative a of <prm>.Or: every result of traverse(a, ...)],
+// whatever loops, helpers or append forms produce it; the caller's fetch flag is handed down unchanged.
+func c02UnionShape(c *Ctx, gen *packages.Package, fd *ast.FuncDecl, prm types.Object, field string, pathT *types.Named) (bool, string) {
+	rets := c02TraversalReturns(c, gen, fd, pathT)
+	if len(rets) == 0 {
+		return false, "the function's result could not be evaluated"
+	}
+	boolPrm := boolParamName(gen.TypesInfo, fd)
+	for _, rt := range rets {
+		v := rt[1].(*Sym)
+		where := ""
+		if rt[0].(string) != "" {
+			where = " (returned when " + rt[0].(string) + ")"
+		}
+		if v.K != symList || len(v.Parts) != 1 || v.Parts[0].K != symRepeat {
+			return false, "the value returned is not one entry per alternative" + where + ": " + shortFormat(v.String())
+		}
+		outer := v.Parts[0]
+		if outer.X.K != symField || outer.X.Name != field || outer.X.X == nil || outer.X.X.K != symVar || outer.X.X.Obj != prm {
+			return false, "the loop that fills the result does not range over " + prm.Name() + "." + field + where + ": " + shortFormat(outer.X.String())
+		}
+		if len(outer.Parts) != 1 {
+			return false, fmt.Sprintf("per alternative %d things are appended, conditionally or more than the traversal's results%s: %s", len(outer.Parts), where, shortFormat(outer.String()))
+		}
+		coll, ok := flattenOf(outer.Parts[0])
+		if !ok {
+			return false, "what is appended per alternative is not every result of its traversal" + where + ": " + shortFormat(outer.Parts[0].String())
+		}
+		args, ok := traversalCall(gen, coll)
+		if !ok || !isElemCopy(args[0], outer.X) {
+			return false, "the results appended are not those of traversing the alternative itself" + where + ": " + shortFormat(coll.String())
+		}
+		if boolPrm != "" {
+			passes := false
+			for _, a := range args[1:] {
+				if a.K == symVar && a.Obj != nil && a.Obj.Name() == boolPrm {
+					passes = true
+				}
+			}
+			if !passes {
+				return false, "the alternatives are not traversed with the caller's " + boolPrm + " flag" + where + ": " + shortFormat(coll.String())
+			}
+		}
+	}
+	return true, ""
+}
+
+func boolParamName(info *types.Info, fd *ast.FuncDecl) string {
+	for _, f := range fd.Type.Params.List {
+		for _, nm := range f.Names {
+			if o := info.Defs[nm]; o != nil {
+				if b, ok := o.Type().Underlying().(*types.Basic); ok && b.Kind() == types.Bool {
+					return nm.Name
+				}
+			}
+		}
+	}
+	return ""
+}
+
+// c02CompositionShape: for two or more steps the arm returns [for every result h of traverse(first step, fetching
+// nodes): every result of traversing the remaining steps And[1:] from h]; a single step is traversed as it is.
+func c02CompositionShape(c *Ctx, gen *packages.Package, fd *ast.FuncDecl, prm types.Object, field string, pathT *types.Named) (bool, string) {
+	rets := c02TraversalReturns(c, gen, fd, pathT)
+	if len(rets) == 0 {
+		return false, "the function's result could not be evaluated"
+	}
+	isSteps := func(s *Sym) bool {
+		return s != nil && s.K == symField && s.Name == field && s.X != nil && s.X.K == symVar && s.X.Obj == prm
+	}
+	isFirst := func(s *Sym) bool {
+		if s == nil || s.K != symIndex || !isSteps(s.X) {
+			return false
+		}
+		i, ok := s.Y.ConstInt()
+		return ok && i == 0
+	}
+	isTail := func(s *Sym) bool {
+		// a path value whose steps are And[1:len(And)]
+		var steps *Sym
+		s.Walk(func(q *Sym) {
+			if q.K == symCall && q.Fn == "slice" && len(q.Parts) == 3 && isSteps(q.Parts[0]) {
+				steps = q
+			}
+		})
+		if steps == nil {
+			return false
+		}
+		lo, ok := steps.Parts[1].ConstInt()
+		hi := steps.Parts[2]
+		return ok && lo == 1 && hi.K == symLen && isSteps(hi.X)
+	}
+	composed := 0
+	var problems []string
+	for _, rt := range rets {
+		v := rt[1].(*Sym)
+		where := ""
+		if rt[0].(string) != "" {
+			where = " (returned when " + rt[0].(string) + ")"
+		}
+		// the single-step form: the step's own traversal
+		if args, ok := traversalCall(gen, v); ok && isFirst(args[0]) {
+			continue
+		}
+		if v.K == symList && len(v.Parts) == 0 {
+			continue // no steps, no results
+		}
+		if v.K != symList || len(v.Parts) != 1 || v.Parts[0].K != symRepeat || len(v.Parts[0].Parts) != 1 {
+			problems = append(problems, "the value returned is not one group of results per head result"+where+": "+shortFormat(v.String()))
+			continue
+		}
+		outer := v.Parts[0]
+		hargs, ok := traversalCall(gen, outer.X)
+		if !ok || !isFirst(hargs[0]) {
+			problems = append(problems, "the outer loop does not range over the traversal of the first step"+where+": "+shortFormat(outer.X.String()))
+			continue
+		}
+		fetches := false
+		for _, a := range hargs[1:] {
+			if b, isB := a.ConstBool(); isB && b {
+				fetches = true
+			}
+		}
+		if !fetches {
+			problems = append(problems, "the head is not traversed with node fetching forced on"+where+": "+shortFormat(outer.X.String()))
+			continue
+		}
+		coll, ok := flattenOf(outer.Parts[0])
+		if !ok {
+			problems = append(problems, "what is appended per head result is not every result of the tail's traversal"+where+": "+shortFormat(outer.Parts[0].String()))
+			continue
+		}
+		targs, ok := traversalCall(gen, coll)
+		if !ok || !isTail(targs[0]) {
+			problems = append(problems, "the inner traversal is not over the remaining steps "+field+"[1:]"+where+": "+shortFormat(coll.String()))
+			continue
+		}
+		from := false
+		for _, a := range targs[1:] {
+			if mentionsElemOf(a, outer.X) {
+				from = true
+			}
+		}
+		if !from {
+			problems = append(problems, "the tail is not traversed from each head result"+where+": "+shortFormat(coll.String()))
+			continue
+		}
+		composed++
+	}
+	if len(problems) > 0 {
+		return false, strings.Join(problems, "; ")
+	}
+	if composed == 0 {
+		return false, "no return value composes the head with the tail"
+	}
+	return true, ""
 }
